@@ -403,6 +403,55 @@ def codec_and_status(ctx, prog):
         if not idx or not any(s_ == idx[0].ret for a in ent[0].args for s_ in subterms(a)) and not isinstance(ent[0].argvals[1], VInt):
             return 'entry read at something other than the status index'
         return None
+    # every way to Ok(()) that does not read the list: only SkipAll or a credential without status (a status of this type is never
+    # "unsupported": skipping it under SkipUnsupported would report revoked credentials as valid)
+    def r_skip(p):
+        if p.kind != 'return':
+            return 'panic ' + p.msg
+        if not p.is_ok() or p.find_calls(r'StatusList2021Credential::entry$'):
+            return None
+        eqs = [c for c in p.find_calls(r'PartialEq.*>::(eq|ne)$')]
+        skip_all = any(('SkipAll' in term_str(('x', tuple(c.args)))) and mentions(c.args, r'^status_check$') and
+                       p.took(c.ret, 'true' if c.name.endswith('::eq') else 'false') for c in eqs)
+        cs = S_CRED.index('credential_status')
+        no_status = p.took(('field', ('deref', ('leaf', 'credential')), cs, ''), 'None') or \
+            any(p.took(t_, 'None') for t_ in [('field', ('leaf', 'credential'), cs, ''), ('ref', ('field', ('deref', ('leaf', 'credential')), cs, ''))])
+        if skip_all or no_status:
+            return None
+        return 'status evaluation reports Ok without reading the list although a status is present and the check is not SkipAll'
+    S_CRED = prog.structs['Credential']
+    A.require('check_status_with_status_list_2021/ok-without-reading-the-list-only-for-SkipAll-or-no-status', paths, r_skip,
+              replay={'scenario': 'statuslist_status'})
+
+    # StatusList2021::new: Err exactly below the minimum size, otherwise a zero-filled store of exactly ceil(n / 8) bytes
+    fn_ = prog.one(r'status_list::<impl at [^>]*>::new$', sig=r'^usize')
+    npaths, nex = A.paths(fn_)
+    MIN = 131072
+
+    def r_new(p):
+        if p.kind != 'return':
+            return 'panic ' + p.msg
+        pn = [n_ for n_, l_ in fn_.debug.items() if l_ == 1]
+        n = nex.sym_int(('leaf', pn[0] if pn else 'arg1'), 64).e
+        if p.is_err():
+            return None if p.implies(z3.ULT(n, MIN)) else 'a size of at least the minimum is refused'
+        if not p.is_ok():
+            return 'unexpected result'
+        if not p.implies(z3.UGE(n, MIN)):
+            return 'a size below the minimum is accepted'
+        fe = p.find_calls(r'vec::from_elem$|Vec.*::resize$|vec::from_elem_in$')
+        if len(fe) != 1 or not isinstance(fe[0].argvals[1], VInt):
+            return 'the store is not one zero-filled vector of a computed size'
+        if term_str(fe[0].args[0]) not in ('const(0)', '0'):
+            return 'the store is not zero-filled'
+        if not is_sub_t(p.term(), fe[0].ret):
+            return 'the list returned is not that store'
+        sz = z3.ZeroExt(64, fe[0].argvals[1].e)
+        n2 = z3.ZeroExt(64, n)
+        ok = z3.And(z3.UGE(sz * 8, n2), z3.ULT(sz * 8, n2 + 8))
+        return None if p.implies(ok) else 'the store does not hold exactly ceil(num_entries / 8) bytes for every size'
+    A.require('new/err-iff-below-minimum-else-exactly-ceil-n-over-8-zero-bytes', npaths, r_new, replay={'scenario': 'statuslist_codec', 'cex': {'only': '[new]'}})
+
     # StatusList2021Credential::update: decode, hand the list (with the credential's purpose) to the caller's function once, and store
     # the re-encoded list whenever that function succeeded - unconditionally, whatever the function did
     fu = prog.one(r'status_list_2021::credential::<impl at [^>]*>::update$')
